@@ -40,7 +40,7 @@ CLAIMS = {
         note="PROVED: local backend over contracted SQL helpers, HTTP client request/response mapping, object store sequentially (its name/list helpers and cleanup trusted by contract, hashed; concurrent clients are C09, not applicable). BOUNDED stand-in (executed, never counted as proved; engine server_conform): the local server including its SQL, and the git-backed server (spawns git; local-only, and two clones sharing a bare remote with handles created up-front or lazily), are run on every call sequence within stated bounds (local: depth 3 from 3 base chains, two handles, 3 payloads incl. empty / non-UTF-8 / 70 kB, + 600 seeded walks of 30 calls; git: depth 2 + seeded walks; thorough: one level deeper, thousands of walks) and each result is checked against the executable protocol contract; a deviation is reported with the failing call sequence (replayable). It found D10 (git: a replica keeps the key of the salt it invented itself), repaired by a fix: commit. NOT covered: the sync server program behind the HTTP client, real object stores, longer sequences, injected faults (C11)."),
     'C11': dict(
         text="Proof that the backend invariant (rows = one parent-linked chain ending at latest, no other row served) holds after EVERY helper call inside LocalServer::add_version, i.e. at every point where a failure or stop can occur between database transactions, and that an Err from any helper returns without further writes. Object store (unit cloudsrv): whatever step of CloudServer::add_version fails or is interrupted (each request may or may not have been carried out), the store is left unchanged, or with only the uploaded-but-uncommitted object, or with the accepted version; such an object is proved not to be a true child (lemma_orphan_not_served), and get_child_version is proved to serve true children only.",
-        note="LOCAL BACKEND AND OBJECT STORE ONLY; for the object store the freshness of Uuid::new_v4 (A12) is assumed and the 'every replica can go on synchronizing' composition is not derived; each SQL helper is assumed to be one atomic SQLite transaction with the stated effect (hashed, trusted). Object-store and git backends not covered."),
+        note="PROVED: the local backend over contracted SQL helpers (crash points between helper calls) and the object store's add_version failure states, sequentially (helpers hashed). BOUNDED stand-in (executed, never counted as proved; engine server_conform kind git-fault): the git-backed server with a shared remote -- every git command of add_version / add_snapshot on one replica fails in turn in three ways, all handles restart, and the executable protocol contract is checked while both replicas go on. OPEN KNOWN FINDING D11 (git backend serves an unpublished version after an interrupted add_version; replay defect_replays/d11_git_interrupted_add.rs) is printed as KNOWN-FINDING and matched by failure signature, so other deviations are still violations. NOT covered: faults inside one SQL transaction (C06), real object stores, composition with whole replicas (client side is C04)."),
     'C12': dict(
         text="Proof that sync uploads a snapshot only for the version it just added, only when no local operation remains (so the encoded task set is the replay of the chain up to that version), only when the server's urgency meets the replica's threshold; make_snapshot encodes exactly all_tasks; apply_snapshot is reached only on an empty replica, re-checks emptiness, installs exactly the decoded task set and version and never replaces existing data; a replica started from a snapshot satisfies the replica invariant and hence ends equal to a full replay.",
         note="JSON+zlib round trip is assumption A6 ('whatever strings the tasks contain' is inside A6, not decided)."),
